@@ -300,7 +300,11 @@ func (r *Run) Finish() int {
 	for _, id := range knownIDs {
 		fmt.Printf("KNOWN-FINDING: property=%s %s: %s (%d cases this run)\n", r.Prop, id, r.knownWhat[id], r.known[id])
 	}
-	for _, m := range r.inconclusive {
+	for i, m := range r.inconclusive {
+		if i >= 12 {
+			fmt.Printf("INCONCLUSIVE property=%s (+%d further inconclusive cases not listed)\n", r.Prop, len(r.inconclusive)-i)
+			break
+		}
 		if len(m) > 300 {
 			m = m[:300]
 		}
